@@ -306,6 +306,7 @@ namespace fastscapelib
 
                     nrec = 0;
                     weights_sum = 0;
+                    double slope_max = 0;
 
                     for (auto n : grid.neighbors(i, neighbors))
                     {
@@ -317,9 +318,9 @@ namespace fastscapelib
                             receivers(i, nrec) = n.idx;
                             dist2receivers(i, nrec) = n.distance;
 
-                            weight = std::pow(slope, this->m_op_ptr->m_slope_exp);
-                            weights_sum += weight;
-                            receivers_weight(i, nrec) = weight;
+                            // store the slope (weights are computed below)
+                            receivers_weight(i, nrec) = slope;
+                            slope_max = std::max(slope_max, slope);
 
                             // update donors (note: not thread safe if later parallelization)
                             donors(n.idx, donors_count(n.idx)++) = i;
@@ -338,6 +339,18 @@ namespace fastscapelib
                     }
 
                     receivers_count(i) = nrec;
+
+                    // weights are proportional to slope^p: slopes are first scaled by
+                    // the steepest one so that the power can neither underflow to zero
+                    // for all receivers nor overflow
+                    for (size_type j = 0; j < nrec; j++)
+                    {
+                        double rel_slope
+                            = slope_max > 0 ? receivers_weight(i, j) / slope_max : 1.;
+                        weight = std::pow(rel_slope, this->m_op_ptr->m_slope_exp);
+                        weights_sum += weight;
+                        receivers_weight(i, j) = weight;
+                    }
 
                     // normalize weights
                     for (size_type j = 0; j < nrec; j++)
